@@ -164,10 +164,12 @@ def tlc_mc(module, cfg=None, expect_violation=None, **kw):
     return r
 
 
-def tlc_judge(module, trace_path, chunk=4000, timeout=900, cfg=None, par=None):
+def tlc_judge(module, trace_path, chunk=4000, timeout=900, cfg=None, par=None, case_start=None):
     """Have TLC judge an ndjson trace with spec/<module>.tla (an I->S trace spec whose
     Next prints <<"BAD", index, verdict>> / <<"DIVERGES", index>> and finally
     <<"JUDGED", n>>).  The file is split into chunks judged by parallel JVMs.
+    case_start: optional predicate on a raw line; when given, chunks are only cut
+    immediately before a line for which it is true (stateful traces: cut at "reset").
     Returns dict(judged, bad=[(index, verdict)], diverges=[index], states, transitions)."""
     with open(trace_path) as f:
         lines = [x for x in f if x.strip()]
@@ -175,11 +177,22 @@ def tlc_judge(module, trace_path, chunk=4000, timeout=900, cfg=None, par=None):
         raise ToolError("empty trace " + trace_path)
     tmpd = tempfile.mkdtemp(prefix="vf-judge-")
     chunks = []
-    for i in range(0, len(lines), chunk):
-        p = os.path.join(tmpd, "chunk%d.ndjson" % (i // chunk))
+    cuts = [0]
+    if case_start is None:
+        cuts = list(range(0, len(lines), chunk))
+    else:
+        for i, x in enumerate(lines):
+            if i - cuts[-1] >= chunk and case_start(x):
+                cuts.append(i)
+    cuts.append(len(lines))
+    for k in range(len(cuts) - 1):
+        a, b = cuts[k], cuts[k + 1]
+        if a == b:
+            continue
+        p = os.path.join(tmpd, "chunk%d.ndjson" % k)
         with open(p, "w") as f:
-            f.writelines(lines[i:i + chunk])
-        chunks.append((i, p, len(lines[i:i + chunk])))
+            f.writelines(lines[a:b])
+        chunks.append((a, p, b - a))
 
     def one(c):
         off, p, n = c
@@ -337,10 +350,10 @@ class Ctx:
         return 1 if self.violations else 0
 
 
-def judge_records(ctx, module, trace_path, sig_fn=None, nontrivial_fn=None, chunk=4000):
+def judge_records(ctx, module, trace_path, sig_fn=None, nontrivial_fn=None, chunk=4000, cfg=None, case_start=None):
     """Common I->S step: TLC judges the trace; every BAD record becomes a violation.
     sig_fn(record, verdict) -> structural signature (default: the verdict name)."""
-    j = tlc_judge(module, trace_path, chunk=chunk)
+    j = tlc_judge(module, trace_path, chunk=chunk, cfg=cfg, case_start=case_start)
     recs = j["records"]
     ctx.cov["states"] += j["states"]
     ctx.cov["transitions"] += j["transitions"]
